@@ -297,7 +297,94 @@ func c03Ctl(c *Ctx, p *Prog, kt *keyTables, db *dbModel, keyConst func(string) (
 	c.Check(cl.bound == 32 && cl.defMod == modCtrl && okEx && h1 && h2 && h3 && h4, "C03-R3", "control-bytes", "-", fmt.Sprintf("bytes 0..%d map to Key(i) with modifier %d, exempt (unmodified): %v", cl.bound-1, cl.defMod, cl.exempt))
 }
 
+// c03RuneRange: the rune parser hands the bytes 0x20..0x7f - DEL included - to
+// NewEventKey as runes (DEL becomes Backspace2 there); below 0x20 and, after the
+// fast path, below 0x80 it declines.  The two constants are part of the protocol.
+func c03RuneRange(c *Ctx, p *Prog) {
+	fn := p.Fn("tcell:(*tScreen).parseRune")
+	if fn == nil {
+		c.Undecided("C03-R5", "parseRune", "-", "not found")
+		return
+	}
+	// the block that appends a KeyRune event built from b[0]
+	okR, detail := false, "no fast path for single-byte runes found"
+	eachInstr(fn, func(in ssa.Instruction) {
+		cc := callCommon(in)
+		if cc == nil || !strings.HasSuffix(calleeName(cc), "NewEventKey") || len(cc.Args) < 3 {
+			return
+		}
+		// the rune argument is b[0]
+		cv := stripConv(cc.Args[1])
+		ld, ok := cv.(*ssa.UnOp)
+		if !ok {
+			return
+		}
+		ia, ok := ld.X.(*ssa.IndexAddr)
+		if !ok {
+			return
+		}
+		if k, ok := constInt(ia.Index); !ok || k != 0 {
+			return
+		}
+		lo, hi := int64(-1), int64(1<<20)
+		for _, g := range rawGuardsAt(in.Block()) {
+			bo, ok := g.Cond.(*ssa.BinOp)
+			if !ok {
+				continue
+			}
+			x := stripConv(bo.X)
+			u, ok := x.(*ssa.UnOp)
+			if !ok {
+				continue
+			}
+			ia2, ok := u.X.(*ssa.IndexAddr)
+			if !ok || ia2.X != ia.X {
+				continue
+			}
+			k, ok := constInt(bo.Y)
+			if !ok {
+				continue
+			}
+			op := bo.Op
+			if !g.Positive {
+				switch op {
+				case token.LSS:
+					op = token.GEQ
+				case token.LEQ:
+					op = token.GTR
+				case token.GTR:
+					op = token.LEQ
+				case token.GEQ:
+					op = token.LSS
+				}
+			}
+			switch op {
+			case token.GEQ:
+				if k > lo {
+					lo = k
+				}
+			case token.GTR:
+				if k+1 > lo {
+					lo = k + 1
+				}
+			case token.LEQ:
+				if k < hi {
+					hi = k
+				}
+			case token.LSS:
+				if k-1 < hi {
+					hi = k - 1
+				}
+			}
+		}
+		okR = lo == 0x20 && hi == 0x7f
+		detail = fmt.Sprintf("single bytes %#x..%#x are delivered as runes (want 0x20..0x7f: DEL must reach NewEventKey, which reports it as Backspace2)", lo, hi)
+	})
+	c.Check(okR, "C03-R5", "parseRune:single-byte-range", p.pos(fn.Pos()), detail)
+}
+
 func c03NewEventKey(c *Ctx, p *Prog) {
+	c03RuneRange(c, p)
 	fn := p.Fn("tcell:NewEventKey")
 	if fn == nil {
 		c.Undecided("C03-R5", "NewEventKey", "-", "not found")
